@@ -782,12 +782,12 @@ fn judge_c01(w: &World, g: usize, chain: &[usize], states: &[StateKey], reached_
         // one explanatory predicate per signature, by priority; the rest only in the detail
         const PRIORITY: [&str; 10] = [
             "fork-deeper-than-retention",
-            "winner-refused-after-rollback-proposal-arrived-after-leaving-the-epoch",
             "rotated-nostr-id-on-losing-branch",
             "earlier-invalid-commit-forces-rollback",
             "immediate-merge-lost-race",
             "applied-own-commit-that-validation-refuses",
             "evicted-on-losing-branch",
+            "winner-refused-after-rollback-proposal-arrived-after-leaving-the-epoch",
             "commit-before-referenced-proposal",
             "ahead-of-epoch-marked-failed",
             "restarted",
